@@ -155,7 +155,7 @@ AsnDec1(e) == AsnDec2(e, DecryptDer(BFromBE(e.d), e.der))
 \* ---------------- C11: group law and field arithmetic (verdicts on denotations / residues) ----------------
 MontOne == RModP
 PairClass(a, b) == IF a = Inf /\ b = Inf THEN "O+O" ELSE IF a = Inf THEN "O+Q" ELSE IF b = Inf THEN "P+O"
-                   ELSE IF a = b THEN "P=Q" ELSE IF a = C!Neg(b) THEN "P=-Q" ELSE "generic"
+                   ELSE IF a = b THEN "P=Q" ELSE IF a = C!Neg(b) THEN "P=-Q" ELSE IF a[2] = b[2] THEN "same-y" ELSE IF a[1] = b[1] THEN "same-x" ELSE "generic"
 OutOK(e, expected) == e.outcome = "ok" /\ JCanon(e.out) /\ Denote(e.out) = expected
 EcKind(e) == IF Crash(e) THEN e.outcome ELSE "wrong-point"
 EcAdd3(e, a, b) == Stay /\ tlast' = Verdict(e, OutOK(e, C!PAdd(a, b)), "add." \o PairClass(a, b) \o (IF a = b /\ e.p # e.q THEN ".diffZ" ELSE ""), EcKind(e))
